@@ -1,7 +1,11 @@
 // C11: confirm or refute on the REAL code, under AddressSanitizer, the out-of-bounds access the model predicts
 // (Properties_C11.C11_mspq_capacity5_out_of_bounds) for an MSPriorityQueue whose buffer has Exp2 = false.
 // Plain single thread, no scheduler, no hook.  usage: asan_cap5 <buffer size> <number of pushes>
-//   buffer size 6 -> capacity() = 5: the 5th push gets slot 6 from bit_reverse_counter and uses m_Heap[6].
+//   Before the fix "MSPriorityQueue uses only complete heap levels of a non-power-of-two buffer": buffer size 6 ->
+//   capacity() = 5, the 5th push got slot 6 from bit_reverse_counter and used m_Heap[6] (heap-buffer-overflow, WRITE
+//   in spin_lock::try_lock called from push, mspriority_queue.h:272; same for buffers 10 and 14).
+//   After the fix capacity() = floor2(6) - 1 = 3: pushes #4 and #5 fail, no error.  checks/C11.py runs this program
+//   for buffers 6, 10, 14, 7, 5 and reports any AddressSanitizer output as a violation.
 // Build: g++ -std=c++11 -O1 -g -DNDEBUG -fsanitize=address -fno-omit-frame-pointer -I$REPO asan_cap5.cpp -pthread
 #include <cds/intrusive/mspriority_queue.h>
 #include <cds/opt/buffer.h>
